@@ -156,12 +156,7 @@ Spline<K, G> & Spline<K, G>::concat_global(const Spline & other)
   const std::size_t N2 = other.size();
 
   const double tend = t_max();
-
-  if (empty()) {
-    m_g0 = other.m_g0;
-  } else {
-    m_end_g[N1 - 1] = other.m_g0;
-  }
+  const G other_g0  = other.m_g0;
 
   m_end_t.resize(N1 + N2);
   m_end_g.resize(N1 + N2);
@@ -177,6 +172,13 @@ Spline<K, G> & Spline<K, G>::concat_global(const Spline & other)
     m_seg_Del[N1 + i] = other.m_seg_Del[i];
   }
 
+  // junction is written last since other may be *this
+  if (N1 == 0) {
+    m_g0 = other_g0;
+  } else {
+    m_end_g[N1 - 1] = other_g0;
+  }
+
   return *this;
 }
 
@@ -188,12 +190,7 @@ Spline<K, G> & Spline<K, G>::concat_local(const Spline & other)
 
   const double tend = t_max();
   const G gend      = end();
-
-  if (empty()) {
-    m_g0 = composition(m_g0, other.m_g0);
-  } else {
-    m_end_g.back() = composition(m_end_g.back(), other.m_g0);
-  }
+  const G junction  = composition(gend, other.m_g0);
 
   m_end_t.resize(N1 + N2);
   m_end_g.resize(N1 + N2);
@@ -207,6 +204,13 @@ Spline<K, G> & Spline<K, G>::concat_local(const Spline & other)
     m_Vs[N1 + i]      = other.m_Vs[i];
     m_seg_T0[N1 + i]  = other.m_seg_T0[i];
     m_seg_Del[N1 + i] = other.m_seg_Del[i];
+  }
+
+  // junction is written last since other may be *this
+  if (N1 == 0) {
+    m_g0 = junction;
+  } else {
+    m_end_g[N1 - 1] = junction;
   }
 
   return *this;
